@@ -19,7 +19,7 @@ vars == <<phase, tree, depth, plant, sec, fam>>
 
 Init ==
   \/ /\ phase = "schema" /\ fam = "schema" /\ plant \in SchemaPlants /\ tree = PlantSchema(plant) /\ depth = 0 /\ sec = <<"-", "none">>
-  \/ /\ phase = "simple" /\ fam = "simple" /\ plant \in SimplePlants \cup {"itemsref"} /\ tree = Empty /\ depth = 0 /\ sec = <<"-", "none">>
+  \/ /\ phase = "simple" /\ fam = "simple" /\ plant \in SimplePlants \cup {"itemsref", "itemsrefall"} /\ tree = Empty /\ depth = 0 /\ sec = <<"-", "none">>
   \/ /\ phase = "holder" /\ fam = "holder" /\ plant = "ref" /\ tree = Empty /\ depth = 0 /\ sec = <<"-", "none">>
 
 WrapStep(k) ==
@@ -34,7 +34,7 @@ PlaceSchemaStep(s) ==
 
 PlaceSimpleStep(s, d) ==
   /\ phase = "simple"
-  /\ plant = "itemsref" => d > 0
+  /\ plant \in {"itemsref", "itemsrefall"} => d > 0
   /\ phase' = "doc" /\ tree' = PlaceSimple(s, d, plant) /\ sec' = s /\ depth' = d
   /\ UNCHANGED <<plant, fam>>
 
@@ -65,6 +65,7 @@ PlantFound ==
       [] fam = "schema" /\ plant = "pattern" -> Cardinality(PatternsOf(tree, TD, "schema")) = 1 /\ refsS = {} /\ ens = {}
       [] fam = "schema" /\ plant = "enum"    -> Cardinality(EnumsOf(tree, TD, "schema")) = 1 /\ refsS = {} /\ pats = {}
       [] plant = "itemsref" -> Cardinality(HoldersOfKind(tree, TD, "items")) = 1 /\ Cardinality(AllHolders(tree, TD)) = 1
+      [] plant = "itemsrefall" -> Cardinality(HoldersOfKind(tree, TD, "items")) = depth /\ Cardinality(AllHolders(tree, TD)) = depth
       [] fam = "simple" /\ plant \in SimplePlants ->
            LET owner == IF depth > 0 THEN "items"
                         ELSE IF sec[2] \in {"sharedParam", "pathParam", "opParam"}
